@@ -42,7 +42,9 @@ def register(kernel):
                coq_params=[("init_len", "option Z"), ("num_chains", "Z"), ("num_samples", "Z")], result=Z,
                thm_params=[("init", "option nat"), ("nc", "nat"), ("ns", "nat")],
                gen_args="(option_map Z.of_nat init) (Z.of_nat nc) (Z.of_nat ns)",
-               model="Z.of_nat (num_chains_eff init nc ns)", model_name="Stats.num_chains_eff", unfold="num_chains_eff option_map", **common)
+               model="Z.of_nat (num_chains_eff init nc ns)", model_name="Stats.num_chains_eff", unfold="num_chains_eff option_map",
+               grid=("list_prod ongrid (list_prod ngrid ngrid)", "fun x => Z.eqb (GEN (option_map Z.of_nat (fst x)) (Z.of_nat (fst (snd x))) (Z.of_nat (snd (snd x)))) "
+                     "(Z.of_nat (num_chains_eff (fst x) (fst (snd x)) (snd (snd x))))"), **common)
         kernel("C13", name="num_time_steps_" + cls, target="num_time_steps",
                coq_params=[("init_len", "option Z"), ("num_chains", "Z"), ("num_samples", "Z")], result=Z,
                thm_params=[("init", "option nat"), ("nc", "nat"), ("ns", "nat")],
@@ -55,7 +57,9 @@ def register(kernel):
                coq_params=[("burn_in", "Z"), ("steps", "Z"), ("i", "Z")], result=Z,
                thm_params=[("burn_in", "nat"), ("steps", "nat"), ("i", "nat")],
                gen_args="(Z.of_nat burn_in) (Z.of_nat steps) (Z.of_nat i)",
-               model="Z.of_nat (k_at burn_in steps i)", model_name="Stats.k_at", unfold="k_at", **common)
+               model="Z.of_nat (k_at burn_in steps i)", model_name="Stats.k_at", unfold="k_at",
+               grid=("list_prod ngrid (list_prod ngrid ngrid)", "fun x => Z.eqb (GEN (Z.of_nat (fst x)) (Z.of_nat (fst (snd x))) (Z.of_nat (snd (snd x)))) "
+                     "(Z.of_nat (k_at (fst x) (fst (snd x)) (snd (snd x))))"), **common)
 
     # ------------------------------------------------------------------ C17: periodic callbacks
     for cls, f in (("MetricEvaluator", "qucumber/callbacks/metric_evaluator.py"),
@@ -67,6 +71,7 @@ def register(kernel):
                coq_params=[("epoch", "Z"), ("period", "Z")], result=B,
                thm_params=[("epoch", "Z"), ("period", "Z")], gen_args="epoch period",
                model="fires period epoch", model_name="Callbacks.fires", imports=["Callbacks"], unfold="fires",
+               grid=("list_prod zgrid zgrid", "fun ep => Bool.eqb (GEN (fst ep) (snd ep)) (fires (snd ep) (fst ep))"),
                cor_imports=["CallbacksT"],
                corollaries=[("period_gate_%s_iff_multiple" % cls,
                              "forall epoch period : Z, (0 < period)%Z -> (GEN epoch period = true <-> (period | epoch)%Z)",
@@ -132,6 +137,7 @@ def register(kernel):
                coq_params=[("N", "Z"), ("pos_bs", "Z")], result=Z,
                thm_params=[("N", "nat"), ("bs", "nat")], hyps=["(0 < bs)%nat"], gen_args="(Z.of_nat N) (Z.of_nat bs)",
                model="Z.of_nat (num_batches N bs)", model_name="Protocol.num_batches", imports=["Protocol"],
+               grid=("list_prod ngrid (tl ngrid)", "fun nb => Z.eqb (GEN (Z.of_nat (fst nb)) (Z.of_nat (snd nb))) (Z.of_nat (num_batches (fst nb) (snd nb)))"),
                tactic="intros N bs H; cbv [GEN num_batches pyceil_div]; tie_zarith",
                cor_imports=["ProtocolT"],
                corollaries=[("num_batches_covers_the_data",
@@ -150,6 +156,7 @@ def register(kernel):
            coq_params=[("neg", "option Z"), ("pos_bs", "Z")], result=Z,
            thm_params=[("neg", "option nat"), ("bs", "nat")], gen_args="(option_map Z.of_nat neg) (Z.of_nat bs)",
            model="Z.of_nat (default_neg bs neg)", model_name="Batching.default_neg", imports=["Batching"],
+           grid=("list_prod ongrid ngrid", "fun x => Z.eqb (GEN (option_map Z.of_nat (fst x)) (Z.of_nat (snd x))) (Z.of_nat (default_neg (snd x) (fst x)))"),
            tactic="intros neg bs; cbv [GEN default_neg option_map truthy_oz]; destruct neg as [[|k]|]; tie_split; try reflexivity; lia", **fit)
 
     # ------------------------------------------------------------------ C20: size defaults of the constructors
@@ -159,6 +166,7 @@ def register(kernel):
            coq_params=[("nv", "Z"), ("nh", "option Z")], result=Z,
            thm_params=[("nv", "nat"), ("nh", "option nat")], gen_args="(Z.of_nat nv) (option_map Z.of_nat nh)",
            model="Z.of_nat (binary_nh nv nh)", model_name="Build.binary_nh", imports=["Build"],
+           grid=("list_prod ngrid ongrid", "fun x => Z.eqb (GEN (Z.of_nat (fst x)) (option_map Z.of_nat (snd x))) (Z.of_nat (binary_nh (fst x) (snd x)))"),
            tactic="intros nv nh; cbv [GEN binary_nh option_map truthy_oz]; destruct nh as [[|k]|]; tie_split; try reflexivity; lia")
     for attr, arg in (("num_hidden", "nh"), ("num_aux", "na")):
         kernel("C20", name="purification_" + attr, file="qucumber/rbm/purification_rbm.py", func="PurificationRBM.__init__", kind="local", target="self_" + attr,
@@ -182,6 +190,8 @@ def register(kernel):
            gen_args="(option_map Z.of_nat size) (Z.of_nat nv) (Z.of_nat max_size)",
            model="match generate_hilbert_space (match size with Some (S k) => S k | _ => nv end) with None => true | Some _ => false end",
            model_name="Bits.generate_hilbert_space (refusal; default size = num_visible when size is None or 0)", imports=["Bits"],
+           grid=("list_prod (None :: map Some [0; 1; 19; 20; 21; 25]%nat) [1; 19; 20; 21; 30]%nat", "fun x => Bool.eqb (GEN (option_map Z.of_nat (fst x)) (Z.of_nat (snd x)) (Z.of_nat max_size)) "
+                 "(match generate_hilbert_space (match fst x with Some (S k) => S k | _ => snd x end) with None => true | Some _ => false end)"),
            tactic="intros size nv; cbv [GEN generate_hilbert_space option_map truthy_oz]; destruct size as [[|k]|]; cbn [Z.of_nat]; tie_split; tie_close",
            cor_imports=["BitsT"],
            corollaries=[("refused_iff_more_than_20_sites",
